@@ -1551,4 +1551,160 @@ theorem search_ne {tree : Array Node} {bucket numpoints : Nat} {d : Nat → Nat 
     · have : numpoints = 0 := by omega
       subst this; simp [dists, sortAsc]
 
+/-! ## the binary layout -/
+
+theorem length_encLE (w : Nat) (x : Int) : (encLE w x).length = w := by
+  induction w generalizing x with
+  | zero => rfl
+  | succ w ih => simp [encLE, ih]
+
+theorem decLEu_append (a b : List Nat) : decLEu (a ++ b) = decLEu a + 256 ^ a.length * decLEu b := by
+  induction a with
+  | nil => simp [decLEu]
+  | cons x xs ih =>
+    simp only [List.cons_append, decLEu, ih, List.length_cons, Nat.pow_succ]
+    rw [Nat.mul_add, ← Nat.mul_assoc, Nat.add_assoc, Nat.mul_comm 256 (256 ^ xs.length)]
+
+theorem decEnc4 (y : Int) : (decLEu (encLE 4 y) : Int) = y % 4294967296 := by
+  simp only [encLE, decLEu]
+  omega
+
+theorem encLE8_split (x : Int) : encLE 8 x = encLE 4 x ++ encLE 4 (x / 4294967296) := by
+  have h : x / 256 / 256 / 256 / 256 = x / 4294967296 := by omega
+  simp only [encLE, List.cons_append, List.nil_append, h]
+
+theorem readLE4 (x : Int) (rest : List Nat) (h1 : -2147483648 ≤ x) (h2 : x < 2147483648) :
+    readLE 4 (encLE 4 x ++ rest) = some (x, rest) := by
+  unfold readLE
+  have hl : ¬ ((encLE 4 x ++ rest).length < 4) := by simp [length_encLE]
+  rw [if_neg hl, List.take_left' (length_encLE 4 x), List.drop_left' (length_encLE 4 x)]
+  have := decEnc4 x
+  simp only [Option.some.injEq, Prod.mk.injEq, and_true]
+  split <;> omega
+
+theorem readLE8 (x : Int) (rest : List Nat) (h1 : -9223372036854775808 ≤ x) (h2 : x < 9223372036854775808) :
+    readLE 8 (encLE 8 x ++ rest) = some (x, rest) := by
+  unfold readLE
+  have hl : ¬ ((encLE 8 x ++ rest).length < 8) := by simp [length_encLE]
+  rw [if_neg hl, List.take_left' (length_encLE 8 x), List.drop_left' (length_encLE 8 x)]
+  have e : (decLEu (encLE 8 x) : Int) = x % 4294967296 + 4294967296 * ((x / 4294967296) % 4294967296) := by
+    rw [encLE8_split, decLEu_append, length_encLE]
+    have a := decEnc4 x
+    have b := decEnc4 (x / 4294967296)
+    have c : ((256 ^ 4 : Nat) : Int) = 4294967296 := by decide
+    rw [Int.natCast_add, Int.natCast_mul, a, b, c]
+  simp only [Option.some.injEq, Prod.mk.injEq, and_true]
+  split <;> omega
+def In32 (x : Int) : Prop := -2147483648 ≤ x ∧ x < 2147483648
+def In64 (x : Int) : Prop := -9223372036854775808 ≤ x ∧ x < 9223372036854775808
+
+theorem readInts4 : ∀ (xs : List Int) (rest : List Nat), (∀ x ∈ xs, In32 x) →
+    readInts 4 xs.length (encInts 4 xs ++ rest) = some (xs, rest) := by
+  intro xs
+  induction xs with
+  | nil => intro rest _; rfl
+  | cons x xs ih =>
+    intro rest h
+    have hx := h x (by simp)
+    simp only [List.length_cons, readInts, encInts, List.append_assoc]
+    rw [readLE4 x _ hx.1 hx.2]
+    simp only
+    rw [ih rest (fun y hy => h y (by simp [hy]))]
+
+theorem readInts8 : ∀ (xs : List Int) (rest : List Nat), (∀ x ∈ xs, In64 x) →
+    readInts 8 xs.length (encInts 8 xs ++ rest) = some (xs, rest) := by
+  intro xs
+  induction xs with
+  | nil => intro rest _; rfl
+  | cons x xs ih =>
+    intro rest h
+    have hx := h x (by simp)
+    simp only [List.length_cons, readInts, encInts, List.append_assoc]
+    rw [readLE8 x _ hx.1 hx.2]
+    simp only
+    rw [ih rest (fun y hy => h y (by simp [hy]))]
+
+/-- the stored fields fit their C++ types (`int` 32 bit, `dist_t` 64 bit) -/
+def NodeRange : Node → Prop
+  | .inner v lo0 up0 c0 lo1 up1 c1 => In32 (v : Int) ∧ In64 lo0 ∧ In64 up0 ∧ In32 c0 ∧ In64 lo1 ∧ In64 up1 ∧ In32 c1
+  | .leaf ls => ∀ x ∈ ls, In32 x
+
+theorem loadNodeBin_saveNodeBin (bucket : Nat) (n : Node) (rest : List Nat)
+    (h : ∀ ls, n = .leaf ls → ls.length = bucket) (hr : NodeRange n) :
+    loadNodeBin bucket (saveNodeBin n ++ rest) = .ok (n, rest) := by
+  cases n with
+  | inner v lo0 up0 c0 lo1 up1 c1 =>
+    obtain ⟨hv, h1, h2, h3, h4, h5, h6⟩ := hr
+    simp only [saveNodeBin, loadNodeBin, List.append_assoc]
+    rw [readLE4 _ _ hv.1 hv.2]
+    have hv0 : ((v : Int) ≥ 0) := by omega
+    simp only [hv0, if_true]
+    have e8 := readInts8 [lo0, lo1, up0, up1] (encInts 4 [c0, c1] ++ rest)
+      (by intro x hx; simp at hx; rcases hx with rfl | rfl | rfl | rfl <;> assumption)
+    simp only [List.length_cons, List.length_nil] at e8
+    rw [e8]
+    have e4 := readInts4 [c0, c1] rest (by intro x hx; simp at hx; rcases hx with rfl | rfl <;> assumption)
+    simp only [List.length_cons, List.length_nil] at e4
+    simp only [e4, Int.toNat_natCast]
+  | leaf ls =>
+    have hl := h ls rfl
+    simp only [saveNodeBin, loadNodeBin, List.append_assoc]
+    rw [readLE4 (-1) _ (by omega) (by omega)]
+    have h1 : ¬ ((-1 : Int) ≥ 0) := by omega
+    simp only [h1, if_false]
+    have e4 := readInts4 ls rest hr
+    rw [hl] at e4
+    simp [e4]
+
+def NodesRange : List Node → Prop
+  | [] => True
+  | n :: ns => NodeRange n ∧ NodesRange ns
+
+theorem loadNodesBin_saveNodesBin (bucket : Nat) (numpoints : Int) (extra : List Nat) :
+    ∀ (ns : List Node) (i : Nat), NodesOK bucket numpoints i ns → NodesRange ns →
+      loadNodesBin bucket numpoints ns.length i (saveNodesBin ns ++ extra) = .ok ns := by
+  intro ns
+  induction ns with
+  | nil => intro i _ _; simp [loadNodesBin]
+  | cons n ns ih =>
+    intro i h hr
+    obtain ⟨⟨hc, hl⟩, hrest⟩ := h
+    simp only [List.length_cons, loadNodesBin, saveNodesBin, List.append_assoc]
+    rw [loadNodeBin_saveNodeBin bucket n _ hl hr.1]
+    simp only [hc, Bool.not_true]
+    rw [ih (i + 1) hrest hr.2]
+    simp
+
+theorem loadBin_saveBin (realspec maxbucket : Int) (t : Tree) (extra : List Nat) (h : WellFormed maxbucket t)
+    (hrs : In32 realspec) (hnp : In32 t.numpoints) (hcost : In32 t.cost) (hmb : In32 maxbucket) (hr : NodesRange t.nodes) :
+    loadBin realspec maxbucket (saveBin realspec t ++ extra) = .ok t := by
+  obtain ⟨h1, h2, h3, h4, h5⟩ := h
+  unfold loadBin saveBin
+  have hm : ((magic ++ encInts 4 [version, realspec, t.bucket, t.numpoints, (t.nodes.length : Int), t.cost] ++ saveNodesBin t.nodes ++ extra).take 16 != magic) = false := by
+    simp [magic]
+  rw [hm]
+  simp only [Bool.false_eq_true, if_false]
+  have hd : (magic ++ encInts 4 [version, realspec, t.bucket, t.numpoints, (t.nodes.length : Int), t.cost] ++ saveNodesBin t.nodes ++ extra).drop 16 =
+      encInts 4 [version, realspec, t.bucket, t.numpoints, (t.nodes.length : Int), t.cost] ++ (saveNodesBin t.nodes ++ extra) := by
+    simp [magic]
+  rw [hd]
+  have hrange : ∀ x ∈ [version, realspec, t.bucket, t.numpoints, (t.nodes.length : Int), t.cost], In32 x := by
+    intro x hx
+    simp only [List.mem_cons, List.not_mem_nil, or_false] at hx
+    unfold In32 at *
+    rcases hx with rfl | rfl | rfl | rfl | rfl | rfl <;> (try simp only [version]) <;> omega
+  have e := readInts4 _ (saveNodesBin t.nodes ++ extra) hrange
+  simp only [List.length_cons, List.length_nil] at e
+  rw [e]
+  have hv : ¬ (version != version) = true := by simp
+  have hr' : ¬ (realspec != realspec) = true := by simp
+  have hb : (0 ≤ t.bucket && t.bucket ≤ maxbucket) = true := by simp [h1, h2]
+  have hs : ((0 : Int) ≤ (t.nodes.length : Int) && (t.nodes.length : Int) ≤ t.numpoints) = true := by simp [h3]
+  have hc : (decide (0 ≤ t.cost)) = true := by simp [h4]
+  simp only [hv, hr', hb, hs, hc, if_false, Bool.not_true, Bool.false_eq_true]
+  have := loadNodesBin_saveNodesBin t.bucket.toNat t.numpoints extra t.nodes 0 h5 hr
+  simp only [Int.toNat_natCast]
+  rw [this]
+
+
 end GeoVerif.VPTree
